@@ -165,14 +165,14 @@ TypeClauses(T, o) ==
   (IF MkFun(o.strip[1], o.strip[2]) = T /\ ~IsFunN(o.strip[2]) /\ o.refun = T THEN {} ELSE {"StripInverse"})
   \cup (IF o.stv = VarsSeq(T, "stv") /\ o.tv = VarsSeq(T, "tv") THEN {} ELSE {"VarsExactInOrder"})
   \cup (IF SeqSet(o.tsubs) = SubTypes(T) /\ NoDup(o.tsubs) /\ o.tsubs = SubsSeq(T) THEN {} ELSE {"SubTypesExactInOrder"})
-  \cup (IF o.size = TSize(T) THEN {} ELSE {"SizeCountsNodes"})
   \cup (IF o.eqcopy /\ o.heqcopy THEN {} ELSE {"EqHashStructural"})
   \cup (IF o.pout = "ok" /\ ParseToks(o.ptoks) = T /\ ParseToks(o.btoks) = T THEN {} ELSE {"PrintedFormDenotesType"})
-  \cup (IF o.pout = "ok" /\ o.back = T /\ o.bback = T THEN {} ELSE {"PrintParseIdentity"})
-  \cup (IF o.fb = T THEN {} ELSE {"ParseBracketed"})
-  \cup (IF HasSTV(T) THEN (IF o.conv.out = "TypeException" THEN {} ELSE {"ConvertDefinedness"})
-        ELSE (IF o.conv.out = "ok" /\ o.conv.res = Conv(T) THEN {} ELSE {"ConvertDefinedness"})
-             \cup (IF o.conv.out = "ok" /\ o.convback # T THEN {"ConvertInverse"} ELSE {}))
+  \cup (IF ~ArityCoherent({T}) THEN {}          \* the parser checks arities against the theory: one name, one arity
+        ELSE (IF o.pout = "ok" /\ o.back = T /\ o.bback = T THEN {} ELSE {"PrintParseIdentity"})
+             \cup (IF o.fb = T THEN {} ELSE {"ParseBracketed"}))
+  \cup (IF o.conv.out = "ok"            \* where the conversion is defined it is the renaming, and the way back is the identity
+        THEN (IF ~HasSTV(T) /\ o.conv.res # Conv(T) THEN {"ConvertDefinedness"} ELSE {}) \cup (IF o.convback # T THEN {"ConvertInverse"} ELSE {})
+        ELSE IF HasSTV(T) THEN {} ELSE {"ConvertDefinedness"})
 \* the statement about TWO types: equality, hash, both orders
 PairClauses(T, U, o) ==
   (IF o.eq = (T = U) /\ o.eq21 = o.eq THEN {} ELSE {"EqStructural"})
